@@ -43,7 +43,7 @@ func init() {
 				ruleKeepCache(c)
 				ruleLockedWrapper(c, a.cacheA)
 				ruleCacheMiddleware(c, a, set("hit-does-not-forward", "hit-serves-stored", "forward-once", "entry-of-request-key", "completion-only-by-fetcher", "cacheable-is-stored"))
-				ruleProxyMiddleware(c, a, set("forward-once"))
+				ruleProxyMiddleware(c, a, set("forward-once", "location-edits-order"))
 				ruleCompletionPaths(c, a.cacheA, set("expiry-value", "ttl-positive", "no-wrap"))
 				ruleGetOrCreate(c)
 				ruleShardFunction(c)
@@ -95,7 +95,7 @@ func init() {
 				ruleLockedWrapper(c, a.cacheA)
 				ruleStoreLoadAtomic(c, a.cacheA)
 				ruleCacheMiddleware(c, a, set("hit-age", "hit-serves-stored", "store-gate"))
-				ruleProxyMiddleware(c, a, set("lifetime-plumbing"))
+				ruleProxyMiddleware(c, a, set("lifetime-plumbing", "location-edits-order"))
 				ruleMaxAge(c, a, set("cache-control-all-lines", "lifetime-source", "smaxage-preferred", "age-subtracted"))
 				ruleAge(c, a.cacheA)
 				ruleResponder(c, a)
@@ -103,11 +103,11 @@ func init() {
 			})
 		})
 	register("C07",
-		"Decides, for all configured periods: a lookup in hit-for-pass state is never queued and never served a response; the marker always gets a period >= 1 (the default when the configured one is <= 0) added to the clock; it lapses through the same expiry test as hits, and that test keeps the entry through its expiry second (expired iff expiredAt < now), so the period is not cut short; the configured period is converted per cache (no value carried over from the previous cache's conversion), is what the fetcher passes and is kept in seconds (never a time.Duration squeezed into the int); the record is saved only after the entry's final state is set, and always when a store is configured (a marker without a response included); non-fetcher requests never complete (extend) the entry; hit-for-pass requests are forwarded once and reach the upstream with their headers untouched; the upstream transport puts no cap on connections per host (forwarded requests do not queue behind one another inside net/http). Timed histories are not decided.",
+		"Decides, for all configured periods: a lookup in hit-for-pass state is never queued and never served a response; the marker always gets a period >= 1 (the default when the configured one is <= 0) added to the clock; it lapses through the same expiry test as hits, and that test keeps the entry through its expiry second (expired iff expiredAt < now), so the period is not cut short; the configured period is converted per cache (no value carried over from the previous cache's conversion), is what the fetcher passes and is kept in seconds (never a time.Duration squeezed into the int); the record is saved only after the entry's final state is set, and always when a store is configured (a marker without a response included), with a store lifetime that is never known to be <= 0; non-fetcher requests never complete (extend) the entry; hit-for-pass requests are forwarded once and reach the upstream with their headers untouched; the upstream transport puts no cap on connections per host (forwarded requests do not queue behind one another inside net/http). Timed histories are not decided.",
 		nil, func(c *Ctx) {
 			withAnchors(c, func(a *serverAnchors) {
 				ruleLookup(c, a.cacheA, set("state-determined", "registration", "hit-data", "expiry-applied", "expiry-exact", "invariant-expiry", "returned-status"))
-				ruleCompletionPaths(c, a.cacheA, set("completes-on-every-path", "ttl-positive", "expiry-value", "persist-final"))
+				ruleCompletionPaths(c, a.cacheA, set("completes-on-every-path", "ttl-positive", "expiry-value", "persist-final", "persist-ttl"))
 				rulePeriodUnits(c)
 				ruleSaveUnconditional(c, a.cacheA)
 				ruleConverterPerItem(c)
@@ -126,8 +126,9 @@ func init() {
 			withAnchors(c, func(a *serverAnchors) {
 				ruleLookup(c, a.cacheA, set("state-determined", "load-on-first-lookup", "load-only-when-unknown", "expiry-applied", "invariant-expiry", "hit-data"))
 				ruleStoreLoadAtomic(c, a.cacheA)
-				ruleCompletionPaths(c, a.cacheA, set("persist-final", "expiry-value", "stores-response"))
+				ruleCompletionPaths(c, a.cacheA, set("persist-final", "persist-ttl", "expiry-value", "stores-response"))
 				ruleSaveUnconditional(c, a.cacheA)
+				ruleDecisionTable(c)
 				ruleBadgerCommits(c)
 				ruleWireConstants(c)
 				rulePublishedResponse(c, a)
@@ -176,6 +177,8 @@ func init() {
 		nil, func(c *Ctx) {
 			withAnchors(c, func(a *serverAnchors) {
 				ruleKey(c)
+				ruleRequestWrites(c)
+				ruleQueryEdits(c)
 				ruleKeyImmutable(c)
 				ruleUnsafeConfined(c)
 				ruleGetOrCreate(c)
@@ -194,6 +197,7 @@ func init() {
 		[]string{"groupcache/lru: MaxEntries == 0 means no limit; Add evicts the oldest entry beyond MaxEntries"}, func(c *Ctx) {
 			withAnchors(c, func(a *serverAnchors) {
 				ruleCapacity(c)
+				ruleConverterPerItem(c)
 				ruleKeepCache(c)
 				ruleLockset(c)
 				ruleResetPrunes(c, "cache")
@@ -206,7 +210,7 @@ func init() {
 			})
 		})
 	register("C18",
-		"Decides that a purge removes the key from the shard the lookup consults (same shard function, whole key) on every path and deletes the persisted record whenever a store is configured; the unnamed form visits every cache and never stops early, the named form touches one; the package-level purge hands (cache name, key) unchanged to the one default registry; each back end deletes the record its Get and Set address; a purge writes no entry state and takes no entry lock, so it can neither block on nor strand an in-flight fetch; an entry enters a shard's LRU only from the function that has just constructed it, so a purged entry is never put back by its fetcher; the badger back end's writes and deletes are committed before success is reported. The history clause about a purge racing a fetch that later re-persists is not decided.",
+		"Decides that a purge removes the key from the shard the lookup consults (same shard function, whole key) on every path and deletes the persisted record whenever a store is configured; the unnamed form visits every cache and never stops early, the named form touches one; the admin handler purges on every request that carries a key; the package-level purge hands (cache name, key) unchanged to the one default registry; each back end deletes the record its Get and Set address; a purge writes no entry state and takes no entry lock, so it can neither block on nor strand an in-flight fetch; an entry enters a shard's LRU only from the function that has just constructed it, so a purged entry is never put back by its fetcher; the badger back end's writes and deletes are committed before success is reported. The history clause about a purge racing a fetch that later re-persists is not decided.",
 		nil, func(c *Ctx) {
 			withAnchors(c, func(a *serverAnchors) {
 				rulePurge(c, a.cacheA)
@@ -242,13 +246,14 @@ func init() {
 				ruleCacheMiddleware(c, a, set("hit-serves-stored"))
 				rulePrecompress(c, a)
 				ruleTransportUnbounded(c)
+				ruleMiddlewareChain(c)
 				ruleKey(c)
 				ruleResponder(c, a)
 				ruleContextKeys(c, a)
 			})
 		})
 	register("C13",
-		"Decides the negotiation logic completely: the function from (accept-br, accept-gzip, has-br, has-gzip, should-compress) to (label, body provenance) is extracted from the code's paths and compared with the documented decision list on all 32 cells, with determinism; should-compress is false iff all variants are <= the minimum length and otherwise the content-type filter (default when unset) decides; cacheable responses are compressed once with the best-compression profile before publication and nowhere else; each response carries the server's compress settings, and a live update computes those settings from the option exactly as the constructor does (a removed filter falls back to the default); the filter is compiled with the parser its validator uses and per server (nothing carried over from the previous server's conversion). Substring matching of Accept-Encoding tokens and q-values are outside the statement.",
+		"Decides the negotiation logic completely: the function from (accept-br, accept-gzip, has-br, has-gzip, should-compress) to (label, body provenance) is extracted from the code's paths and compared with the documented decision list on all 32 cells, with determinism; should-compress is false iff all variants are <= the minimum length and otherwise the content-type filter (default when unset) decides; cacheable responses are compressed once with the best-compression profile before publication and nowhere else; each response carries the server's compress settings, and a live update computes those settings from the option exactly as the constructor does (a removed filter falls back to the default); no library middleware that rewrites responses is installed in the proxying chain; the filter is compiled with the parser its validator uses and per server (nothing carried over from the previous server's conversion). Substring matching of Accept-Encoding tokens and q-values are outside the statement.",
 		nil, func(c *Ctx) {
 			withAnchors(c, func(a *serverAnchors) {
 				ruleDecisionTable(c)
@@ -260,8 +265,10 @@ func init() {
 				rulePublishedResponse(c, a)
 				ruleRawProvenance(c)
 				ruleProxyMiddleware(c, a, set("server-settings"))
+				ruleCacheMiddleware(c, a, set("store-gate"))
 				ruleValidatorsAgree(c)
 				ruleForwarders(c, "compress")
+				ruleMiddlewareChain(c)
 				ruleConverterPerItem(c)
 				ruleCtorUpdateAgree(c)
 			})
@@ -287,9 +294,10 @@ func init() {
 			ruleDecoderBounds(c, map[string]bool{"compress": true})
 		})
 	register("C09",
-		"Decides writer/reader layout agreement for both record types (element kinds, widths, order and the field each element belongs to, every variable-length element preceded by its own length), that every read is bounded (fixed-width reads fail on short input, variable reads are checked against 0 and the remaining length), that no allocation in a decoder is sized by record data and no decoder calls a panicking-by-contract function (Must*) on record data, that every index and fixed-width byte-order read in a decoder is inside the data by the comparisons made before it, that the loader accepts every record the completions write (adoption depends only on status, expiry and, for a hit, the presence of a response, not on its content; markers with and without a response are taken), that a record cut anywhere fails to decode (the tail is a checked read), that encoded records are freshly allocated, that integer writers and readers agree on width and byte order, that the persisted status numbers are the ones records on disk carry, that String() of a decoded status cannot index outside its table, and that decoding keeps no package-level state (the same record always decodes the same way). Exact value round-trip of contents (e.g. JSON re-encoding of non-UTF-8 header values) is value semantics of libraries and not decided.",
+		"Decides writer/reader layout agreement for both record types (element kinds, widths, order and the field each element belongs to, every variable-length element preceded by its own length), that every read is bounded (fixed-width reads fail on short input, variable reads are checked against 0 and the remaining length), that no allocation in a decoder is sized by record data and no decoder calls a panicking-by-contract function (Must*) on record data, that every index and fixed-width byte-order read in a decoder is inside the data by the comparisons made before it, that the loader accepts every record the completions write (adoption depends only on status, expiry and, for a hit, the presence of a response, not on its content; markers with and without a response are taken), that a record cut anywhere fails to decode (the tail is a checked read), that encoded records are freshly allocated, that integer writers and readers agree on width and byte order, that the persisted status numbers are the ones records on disk carry, that String() of a decoded status cannot index outside its table, that a record saved without a content-type filter is restored without one, and that decoding keeps no package-level state (the same record always decodes the same way). Exact value round-trip of contents (e.g. JSON re-encoding of non-UTF-8 header values) is value semantics of libraries and not decided.",
 		nil, func(c *Ctx) {
 			ruleLayout(c)
+			ruleFilterRoundTrip(c)
 			ruleWireConstants(c)
 			ruleDecoderStateless(c, map[string]bool{"cache": true})
 			ruleStringersTotal(c)
@@ -320,7 +328,7 @@ func init() {
 			})
 		})
 	register("C15",
-		"Decides which request state the proxy middleware changes before the upstream call and that each change is undone on every exit after it: on a cold (fetching) request If-None-Match, If-Modified-Since, Range and If-Range are removed or known absent at the upstream call, on every other request they are untouched; every header the middleware removed or overrode (incl. Accept-Encoding) is set back to the value read before; the upstream's Accept-Encoding override is exactly the configured value and is applied whenever one is configured (also when the client sent no Accept-Encoding); the location's configured request headers and query parameters are added next to the client's own (never set over, assigned or deleted); every wildcard of a rewrite rule becomes a capture group and each rule is matched against what the previous rules produced; configured header and query values are used as written (only a leading '$' means an environment lookup); the location's response headers are added to the upstream's header before the response (and its header clone) is built; a lifetime is recorded only for fetchers; the original next handler is restored and run once. What the upstream receives byte for byte is not decided.",
+		"Decides which request state the proxy middleware changes before the upstream call and that each change is undone on every exit after it: on a cold (fetching) request If-None-Match, If-Modified-Since, Range and If-Range are removed or known absent at the upstream call, on every other request they are untouched; every header the middleware removed or overrode (incl. Accept-Encoding) is set back to the value read before; the upstream's Accept-Encoding override is exactly the configured value and is applied whenever one is configured (also when the client sent no Accept-Encoding); the location's configured request headers and query parameters are added next to the client's own (never set over, assigned or deleted, and added whatever the client or upstream already sent; the query is written back on every path and built on the client's own); every wildcard of a rewrite rule becomes a capture group and each rule is matched against what the previous rules produced; configured header and query values are used as written (only a leading '$' means an environment lookup); the location's response headers are added to the upstream's header before the response (and its header clone) is built; a lifetime is recorded only for fetchers; the original next handler is restored and run once. What the upstream receives byte for byte is not decided.",
 		nil, func(c *Ctx) {
 			withAnchors(c, func(a *serverAnchors) {
 				ruleProxyMiddleware(c, a, set("withheld-on-fetch", "restore", "accept-encoding-override", "location-edits-order", "lifetime-plumbing", "next-restored", "response-built", "forward-once", "upstream-error-propagates"))
@@ -334,18 +342,20 @@ func init() {
 				ruleRewriteMatch(c)
 				ruleRewriteSource(c)
 				ruleRewriteChain(c)
+				ruleMergeUnconditional(c)
 				ruleConfigValueVerbatim(c)
 				ruleChainOrder(c, a)
 			})
 		})
 	register("C16",
-		"Decides that the two ways a configuration reaches a running object agree: NewServer and Update compute the same value from the option for every field both assign (only the documented restart-only fields are construction-only); main.update applies every section of the configuration just read, each referenced section before the ones that name it, and then starts the servers; every registry's reset removes names that disappeared (or replaces the collection wholesale) on every path, an empty configuration included; surviving caches are kept; persistent stores are closed only by package store (they are registry singletons that are never re-opened); every configured upstream and compress profile is replaced by one freshly built from the new options; only instances no longer in service are destroyed; removed servers are closed; the proxy resolves the server's locations, and the cache middleware the server's cache, per request (nothing captured when the handler was built); a server is marked as listening only after net.Listen succeeded, so a failed start is retried by the next update; starting the server list visits and starts every registered server; closing a listening server clears that flag and closes its HTTP server and listener; the package-level entry points main.update calls hand the configuration, converted by the package's converter, to the one default registry. The file watcher recognises a write by masking the event's bit set, calls back on every write event and leaves its loop only when the watcher is closed. Differential behaviour of two live processes and in-flight requests during the swap are not decided.",
+		"Decides that the two ways a configuration reaches a running object agree: NewServer and Update compute the same value from the option for every field both assign (only the documented restart-only fields are construction-only); main.update applies every section of the configuration just read, each referenced section before the ones that name it, and then starts the servers; every registry's reset removes names that disappeared (or replaces the collection wholesale) on every path, an empty configuration included, and the shared delete helper visits every key; surviving caches are kept; persistent stores are closed only by package store (they are registry singletons that are never re-opened); every configured upstream and compress profile is replaced by one freshly built from the new options; only instances no longer in service are destroyed; removed servers are closed; the proxy resolves the server's locations, and the cache middleware the server's cache, per request (nothing captured when the handler was built); a server is marked as listening only after net.Listen succeeded, so a failed start is retried by the next update; starting the server list visits and starts every registered server; closing a listening server clears that flag and closes its HTTP server and listener; the package-level entry points main.update calls hand the configuration, converted by the package's converter, to the one default registry. The file watcher recognises a write by masking the event's bit set, calls back on every write event and leaves its loop only when the watcher is closed. Differential behaviour of two live processes and in-flight requests during the swap are not decided.",
 		nil, func(c *Ctx) {
 			ruleCtorUpdateAgree(c)
 			ruleConverters(c)
 			ruleConverterPerItem(c)
 			ruleSectionsApplied(c)
 			ruleResetPrunes(c)
+			ruleMapDeleteVisitsAll(c)
 			ruleKeepCache(c)
 			ruleUpstreamSwap(c)
 			ruleCompressReset(c)
@@ -385,7 +395,7 @@ func init() {
 			})
 		})
 	register("C17",
-		"Decides that Validate runs field validation first and checks each of the four reference relations on exactly the (referrer field, referenced name) pair, per referrer, returning its error; that a reference whose run-time lookup can come back nil (the server's cache, the location's upstream) cannot be left empty in an accepted configuration; that the run-time lookups go to the same default registries the reload fills and are made per request with the server's current settings; that each configuration back end reads, writes and watches one and the same location, writes the bytes it is given, and that Read decodes the bytes it read into the configuration it returns; that Write stores the YAML of the configuration only after Validate returned nil and never reports success without writing; that no configuration field is lost or merged by the YAML/JSON field table, the YAML key of every field is its documented (JSON) key and the shipped pike.yml uses known keys only; that the admin handlers write configuration entries back only as copies of the entries they annotate; that lists of validated structs are validated element-wise (dive) and Validate never reports success from inside one of its loops; that no back-end method rewrites the configured location before using it; that every validate tag is registered and every place that leniently parses a configuration field uses the parser its validator uses (including a value the upstream library parses on pike's behalf). Quoting behaviour of the YAML library is not decided.",
+		"Decides that Validate runs field validation first and checks each of the four reference relations on exactly the (referrer field, referenced name) pair, per referrer, returning its error; that a reference whose run-time lookup can come back nil (the server's cache, the location's upstream) cannot be left empty in an accepted configuration; that the run-time lookups go to the same default registries the reload fills and are made per request with the server's current settings; that each configuration back end reads, writes and watches one and the same location, writes the bytes it is given, and that Read decodes the bytes it read into the configuration it returns; that Write stores the YAML of the configuration only after Validate returned nil and never reports success without writing; that no configuration field is lost or merged by the YAML/JSON field table, the YAML key of every field is its documented (JSON) key and the shipped pike.yml uses known keys only; that the admin handlers write configuration entries back only as copies of the entries they annotate; that a path accepted by the path validator starts with '/'; that lists of validated structs are validated element-wise (dive) and Validate never reports success from inside one of its loops; that no back-end method rewrites the configured location before using it; that every validate tag is registered and every place that leniently parses a configuration field uses the parser its validator uses (including a value the upstream library parses on pike's behalf). Quoting behaviour of the YAML library is not decided.",
 		nil, func(c *Ctx) {
 			ruleValidateRefs(c)
 			ruleRequiredRefs(c)
@@ -400,6 +410,7 @@ func init() {
 			ruleYAMLTable(c)
 			ruleAnnotatePreserves(c)
 			ruleDiveTags(c)
+			rulePathValidator(c)
 			ruleValidateVisitsAll(c)
 			ruleValidatorsAgree(c)
 			ruleConverters(c)
@@ -407,7 +418,7 @@ func init() {
 			ruleStoreOpenNonFatal(c)
 		})
 	register("C20",
-		"Decides lock discipline for all shared mutable state reachable from main (request, purge, admin and reload paths): every access to a guarded field (entry state, shard LRU, server settings, location list) holds the owner's lock in a sufficient mode, locally or through every caller; every lock is released on every return; the lock-order graph is acyclic; fields read without a lock are written only while their object is private to its constructor; a published response is never written; memory from a sync.Pool never escapes into keys, bodies or records; error values (which reach requests through shared package-level sentinels) are written only by the function that built them; no value holding a lock is copied; slices owned by the upstream pool are never written; configuration reloads are invoked synchronously from the single watcher goroutine; the entry lookup is made under the write lock and a woken waiter re-reads under the lock; a registry lookup that can return nil is tested before use; a reload publishes referenced sections before the sections that name them. Race-detector stress and 'the process does not crash' over schedules are not applicable to static analysis.",
+		"Decides lock discipline for all shared mutable state reachable from main (request, purge, admin and reload paths): every access to a guarded field (entry state, shard LRU, server settings, location list) holds the owner's lock in a sufficient mode, locally or through every caller; every lock is released on every return and only by a function that holds it; the lock-order graph is acyclic; fields read without a lock are written only while their object is private to its constructor; a published response is never written; memory from a sync.Pool never escapes into keys, bodies or records; error values (which reach requests through shared package-level sentinels) are written only by the function that built them; no value holding a lock is copied; slices owned by the upstream pool are never written; configuration reloads are invoked synchronously from the single watcher goroutine; the entry lookup is made under the write lock and a woken waiter re-reads under the lock; a registry lookup that can return nil is tested before use; a reload publishes referenced sections before the sections that name them. Race-detector stress and 'the process does not crash' over schedules are not applicable to static analysis.",
 		nil, func(c *Ctx) {
 			withAnchors(c, func(a *serverAnchors) {
 				ruleLockset(c)
